@@ -380,6 +380,7 @@ class ConcHarness:
                 post["stuck"] = [s for s in (conn_stuck(c) for c in pool.connections) if s]
                 post["owned"] = owned_transports(pool)
                 post["open"] = {t.id for t in w.net.open_transports() if not getattr(t, "backend_cleaned", False)}
+                post["h2_slots"] = h2_slot_books(pool)
 
                 async def probe():
                     held, res = [], []
@@ -595,6 +596,12 @@ class ConcHarness:
                     viol("C12", "stream-limit", f"stream {sid} opened as number {nopen} while the limit the client had read is {lim} (httpcore's own cap 100, 1 before SETTINGS); "
                          f"still open by the server's books: {early_closed}", limit=eff, abandoned=any(k == "early" for (_n, k, _t, _o) in specs))
                     break
+        # ---- C12: every stream slot is given back (all callers have returned, nothing was cancelled or made to fail: no request is in flight)
+        if not canc and not inj and w.deadlock is None:
+            for free, limit, rep in post.get("h2_slots", []):
+                if free != limit:
+                    viol("C12", "stream-slot-leaked", f"no request is in flight, yet the connection's stream semaphore has {free} of {limit} slots free: {rep} "
+                         f"(every leaked slot lowers the number of requests that can ever run concurrently on it)")
         # ---- C04
         if "list" in c04:
             viol("C04", "pool-list-overshoot", c04["list"])
@@ -655,6 +662,24 @@ class ConcHarness:
 
 
 _PROBE = [True]
+
+
+def h2_slot_books(pool):
+    """(free slots, limit, repr) of every pooled HTTP/2 connection, read from its stream semaphore; [] where the attributes are not there."""
+    out = []
+    for c in pool.connections:
+        x = c
+        for _ in range(5):
+            if hasattr(x, "_max_streams_semaphore") and hasattr(x, "_max_streams"):
+                sem = getattr(x._max_streams_semaphore, "_anyio_semaphore", None) or getattr(x._max_streams_semaphore, "_trio_semaphore", None)
+                val = getattr(sem, "value", None)
+                if isinstance(val, int) and not getattr(x, "_connection_error", False) and "CLOSED" not in repr(x):
+                    out.append((val, x._max_streams, repr(x)))
+                break
+            x = getattr(x, "_connection", None)
+            if x is None:
+                break
+    return out
 
 
 def S(ct, callers, **kw):
@@ -823,6 +848,9 @@ def scenarios(pid, tier):
         for ct in (["h2pk"] if quick else ["h2pk", "h2alpn"]):
             out.append(S(ct, ["req:a:w", "req:a:v", "req:a"], max_connections=1, cancels=1, styles=["scope", "native"],
                          h2script={"frag": 2}, early=False))
+        # a streamed upload (two chunks) is reset by the server between its chunks, the reset being read on behalf of it by another stream's task
+        for ct in (["h2pk"] if quick else ["h2pk", "h2alpn"]):
+            out.append(S(ct, ["req:a:w", "ipost:a", "req:a"], max_connections=1, h2script={"rst": 1, "frag": 1}, early=False))
         # an upload parked on an exhausted window is reset by the server; with a stream limit of one the next request needs its slot
         for ct in (["h2pk"] if quick else ["h2pk", "h2alpn"]):
             out.append(S(ct, ["req:a:w", "up9:a", "req:a"], max_connections=1, h2cfg={"window_policy": "manual", "initial_window": 4, "max_streams": 1},
